@@ -23,7 +23,7 @@ CHECKS = {
             "each is executed and compared; larger random tables in all input forms are decided by the trace specification.",
             "Trusted: TLC; integer-valued results are compared for equality; counts stay inside the dtype range.",
             "DESIGN.md §5 C18"),
-    "C15": (["CodecOps", "Codec", "Codec_Trace"],
+    "C15": (["CodecOps", "Codec", "Unchunk", "Codec_Trace", "UtilsExtraOps", "UtilsExtra_Trace"],
             "TLA+ spec (CodecOps/Codec) model-checked with TLC incl. the algebraic laws (round trip, involution, form agreement, "
             "chunk/unchunk covering) as invariants; all enumerated calls replayed into tangermeme.utils; random calls validated "
             "against Codec_Trace",
@@ -179,7 +179,7 @@ CHECKS = {
             "which 2**table[b]*4^w is compared.",
             "Trusted: TLC; 1e-9 relative tolerance; this sandbox's numba/LLVM build only.",
             "DESIGN.md §5 C11"),
-    "C12": (["FimoOps", "FimoScan", "FimoScan_Trace"],
+    "C12": (["FimoOps", "FimoScan", "FimoLoop", "FimoScan_Trace"],
             "declarative TLA+ definition of the FIMO hit set (FimoOps) model-checked with TLC on the exhaustive small scope "
             "(MirrorLaw, EveryWindow, FieldsOK, DP = enumeration); every case replayed into fimo() in the exact-arithmetic lane; "
             "random scans validated against FimoScan_Trace",
